@@ -437,3 +437,24 @@ func TestValuesAtTheSizeLimit(t *testing.T) {
 		}
 	})
 }
+
+// The package's switch "for detailed debugging" only adds log output: with it on, histories end in the same roots.
+func TestWithTheDebugSwitchOn(t *testing.T) {
+	ev.Rapid(t, 150, 2000)
+	util.DebugMPTNode = true
+	defer func() { util.DebugMPTNode = false }()
+	rapid.Check(t, func(rt *rapid.T) {
+		target, decoys := genContent(rt, 8)
+		version := int64(rapid.SampledFrom([]int{0, 1, 7, 1 << 40}).Draw(rt, "version"))
+		kind := rapid.SampledFrom([]string{"memory", "level-mem", "pndb"}).Draw(rt, "store")
+		h := genHistory(rt, target, decoys, "h")
+		res := apply(rt, kind, version, h)
+		if len(res.walk.Problems) > 0 || len(res.walk.Missing) > 0 || !mptkit.EqualContent(res.walk.Content, target) {
+			rt.Fatalf("debug switch on: store after history [%s] (version %d): problems %v missing %d content %s", showHist(h), version, res.walk.Problems, len(res.walk.Missing), mptkit.Show(res.walk.Content))
+		}
+		if want := refmpt.Root(target, version); !bytes.Equal(res.root, want) {
+			rt.Fatalf("debug switch on: root after history [%s] (version %d, content %s) = %x, reference %x", showHist(h), version, mptkit.Show(target), res.root, want)
+		}
+		ev.Case(fmt.Sprintf("debug|%v|%s|%v", version, mptkit.Show(target), h), version > 0 && interesting(target), "debug-switch-on")
+	})
+}
